@@ -306,13 +306,47 @@ pub fn oracle(ctx: &mut Ctx) {
         let _ = std::fs::remove_dir_all(dir.join("w"));
         let w = dir.join("w");
         std::fs::create_dir_all(&w).unwrap();
-        let case = gen_case(&mut rng, Profile::Any, false, 9);
-        let fv = gen_flags(&mut rng);
+        let mut case = gen_case(&mut rng, Profile::Any, false, 9);
+        let mut fv = gen_flags(&mut rng);
+        // One case in eight sits in the corner the manual describes as "fully disable all optimization" (`--nx --nz`,
+        // nothing else that changes a file), on an input whose mere re-serialisation is smaller (several IDAT chunks):
+        // the executable still delivers what the library delivers for those option values.
+        if rng.chance(1, 8) {
+            let mut groups: Vec<Vec<String>> = vec![vec!["--nx".into()], vec!["--nz".into()]];
+            let mut tokens: Vec<String> = vec!["nx".into(), "nz".into()];
+            if rng.bool() { let l = *rng.choose(&["0", "2", "4"]); tokens.push(format!("o={}", l)); groups.push(vec!["-o".into(), l.into()]); }
+            if rng.chance(1, 3) { tokens.push("a".into()); groups.push(vec!["-a".into()]); }
+            for i in (1..groups.len()).rev() { let j = rng.below(i as u64 + 1) as usize; groups.swap(i, j); }
+            fv = FlagVec { tokens, args: groups.into_iter().flatten().collect() };
+            case.enc.idat_parts = rng.range(2, 5) as usize;
+            case.input = case.img.encode_png(&mut rng, &case.enc);
+            st.count("all_off_corner");
+        }
+        // One case in twelve is cut short (no decoder accepts it): the only file of the run fails, so the exit status is
+        // 1 and nothing is delivered anywhere.
+        let truncated = rng.chance(1, 12) && case.input.len() > 40;
+        if truncated {
+            let at = rng.range(34, case.input.len() as u64 - 2) as usize;
+            case.input.truncate(at);
+            st.count("truncated_inputs");
+        }
         std::fs::write(w.join("in.png"), &case.input).unwrap();
-        let route = rng.below(6);
+        let route = rng.below(7);
+        let stdin_dest = rng.below(3);
         let mut args = fv.args.clone();
+        // a timeout that is never reached changes nothing (a day; the largest value the option takes)
+        if rng.chance(1, 8) {
+            args.push("--timeout".into());
+            args.push((*rng.choose(&["86400", "18446744073709551615"])).into());
+            st.count("never_expiring_timeout_flag");
+        }
         args.push("-q".into());
         match route {
+            6 => match stdin_dest {
+                1 => { args.push("--out".into()); args.push("out.png".into()); }
+                2 => args.push("--stdout".into()),
+                _ => {}
+            },
             0 => {}
             1 => { args.push("--out".into()); args.push("out.png".into()); }
             2 => { args.push("--dir".into()); args.push("outdir".into()); }
@@ -330,11 +364,11 @@ pub fn oracle(ctx: &mut Ctx) {
                 if rng.chance(1, 3) { args.push("--preserve".into()); }
             }
         }
-        args.push("in.png".into());
+        args.push(if route == 6 { "-".into() } else { "in.png".into() });
         st.count(&format!("route{}", route));
         st.count("cases");
         st.distinct_case(&[case.input.as_slice(), args.join(" ").as_bytes()].concat());
-        let r = run_bin(&w, &args);
+        let r = if route == 6 { run_bin_stdin(&w, &args, &case.input) } else { run_bin(&w, &args) };
         let replay = format!("{{\"args\": {}, \"input_png_hex\": {}}}", jstr(&args.join(" ")), jstr(&hex(&case.input)));
         let Some((_, o)) = canon_dump(&r.dump) else {
             st.fail("no-dump", format!("binary rejected a documented flag vector: {}", args.join(" ")), replay);
@@ -417,6 +451,14 @@ pub fn oracle(ctx: &mut Ctx) {
         }
         let Some(lib) = lib_expected(&case.input, &o) else {
             st.count("library_error");
+            if truncated {
+                let untouched = std::fs::read(w.join("in.png")).ok().as_ref() == Some(&case.input);
+                if r.status != Some(1) {
+                    st.fail("exit-status", format!("exit status {:?} although the only file of the run cannot be decoded: the manual says 1 ({})", r.status, args.join(" ")), replay);
+                } else if !untouched || !r.stdout.is_empty() || w.join("out.png").exists() || w.join("outdir/in.png").exists() {
+                    st.fail("routing", format!("a file that cannot be decoded was delivered or modified ({})", args.join(" ")), replay);
+                } else { st.count("failed_file_exit_1"); }
+            }
             continue;
         };
         // what the library would deliver: strictly smaller or the input itself (unless forced)
@@ -443,11 +485,20 @@ pub fn oracle(ctx: &mut Ctx) {
                 if after_in != case.input { bad = Some("input modified although --stdout was given".into()); }
                 else if r.stdout != lib { bad = Some(format!("standard output ({} bytes) is not exactly the library's bytes ({})", r.stdout.len(), lib.len())); }
             }
+            6 => {
+                // input on standard input: to --out when given, otherwise to standard output
+                if stdin_dest == 1 {
+                    if std::fs::read(w.join("out.png")).ok().as_ref() != Some(&lib) { bad = Some("stdin -> --out: the file differs from the library's bytes".into()); }
+                    else if !r.stdout.is_empty() { bad = Some("stdin -> --out: something was written to standard output".into()); }
+                } else if r.stdout != lib {
+                    bad = Some(format!("stdin -> standard output: {} bytes arrived, the library's result has {}", r.stdout.len(), lib.len()));
+                }
+            }
             _ => {
                 if after_in != case.input || !r.stdout.is_empty() { bad = Some("--pretend wrote something".into()); }
             }
         }
-        if route != 3 && !r.stdout.is_empty() {
+        if route != 3 && route != 6 && !r.stdout.is_empty() {
             bad = Some("something was written to standard output without --stdout".into());
         }
         // no file appears anywhere but at the destination
@@ -461,7 +512,7 @@ pub fn oracle(ctx: &mut Ctx) {
         }
         files.retain(|f| f != "dump.txt"); // the option dump requested by this harness
         files.sort();
-        let want: Vec<&str> = match route { 1 => vec!["in.png", "out.png"], 2 => vec!["in.png", "outdir/in.png"], _ => vec!["in.png"] };
+        let want: Vec<&str> = match route { 1 => vec!["in.png", "out.png"], 2 => vec!["in.png", "outdir/in.png"], 6 if stdin_dest == 1 => vec!["in.png", "out.png"], _ => vec!["in.png"] };
         if bad.is_none() && files != want {
             bad = Some(format!("files after the run are {:?}, expected {:?}", files, want));
         }
